@@ -57,6 +57,7 @@ type plJob struct {
 	Scheds     [][]string `json:"scheds"`      // TLC-generated schedules (spec/PipelineSched.tla) to replay one after the other; Data = the model's datagrams
 	Poison     []int      `json:"poison"`      // what a recycled buffer holds behind the datagram just read: repeated well-formed sets / records
 	Free       bool       `json:"free"`        // no gates: the workers run in parallel as in the collector (used under the race detector)
+	Backlog    bool       `json:"backlog"`     // the receive loop is ahead: the datagram queue is full and the loop is blocked handing the next one over
 	MirrorLate bool       `json:"mirror_late"` // mirroring is enabled only after the templates have been processed
 	Mirror     string     `json:"mirror"`      // "": mirroring off; "on": enabled, the copies are taken and given back like the mirror workers do; "full": enabled and the mirror queue is full
 }
@@ -707,6 +708,36 @@ func plRun(job plJob) (res plResult) {
 	}
 	// phase 2: data, interleaved
 	next := 0
+	if job.Backlog {
+		// everything has been received (the Recv events, in order) and the receive loop hands the datagrams over one after
+		// the other: it blocks as soon as the queue is full and goes on whenever a worker takes one
+		type pending struct {
+			r *net.UDPAddr
+			b []byte
+		}
+		var todo []pending
+		for i, d := range job.Data {
+			b := ad.pool.Get().([]byte)
+			body := plBytes(d.Buf)
+			if len(body) > len(b) {
+				body = body[:len(b)]
+			}
+			copy(b, body)
+			ev(plEvent{Ev: "Recv", D: i + 1, B: idOf(b), N: len(body)})
+			todo = append(todo, pending{&net.UDPAddr{IP: plBytes(d.Exp), Port: 4000}, b[:len(body)]})
+		}
+		sent := make(chan struct{})
+		go func() {
+			for _, p := range todo {
+				ad.send(p.r, p.b)
+			}
+			close(sent)
+		}()
+		for w := 0; w < 2000 && ad.qlen() < len(todo) && ad.qlen() < 1000; w++ {
+			time.Sleep(time.Millisecond)
+		}
+		next = len(job.Data)
+	}
 	retired := 0
 	lazy := job.Lazy
 	if lazy < 1 {
